@@ -399,9 +399,9 @@ where
     Data: hash::Hash,
 {
     fn hash<H: hash::Hasher>(&self, state: &mut H) {
+        // Like equality, hashing ignores the TTL.
         self.owner.hash(state);
         self.class.hash(state);
-        self.ttl.hash(state);
         self.data.hash(state);
     }
 }
